@@ -329,7 +329,12 @@ def mutate_value(
 
     # If `transform` is provided, transform `value`
     if transform:
-        value = transform(value)
+        transformed = transform(value)
+        if transformed is not value:
+            # The transform handed back an object we did not create.
+            mutate_safe = inplace
+            private = False
+        value = transformed
 
     # If `attr_transforms` is provided, transform attributes
     if attr_transforms:
